@@ -368,6 +368,9 @@ func (ex *Exec) zeroValue(t types.Type) Value {
 		case SBool:
 			return Sc{TFalse}
 		case SF64:
+			if ex.realFloats {
+				return Sc{Term{"0.0", SReal}}
+			}
 			return Sc{ex.floatConst("0")}
 		case SStr:
 			return Sc{ex.strConst("")}
@@ -403,7 +406,7 @@ func (ex *Exec) freshValue(hint string, t types.Type, pc Term) Value {
 	ls := leavesOf(t)
 	var ts []Term
 	for _, l := range ls {
-		c := ex.vc.Fresh(hint+l.path, l.sort)
+		c := ex.vc.Fresh(hint+l.path, leafSortFix(ex, l))
 		ts = append(ts, c)
 	}
 	v := ex.unflatten(t, &ts)
